@@ -142,18 +142,43 @@ def _run_file(cmd_of, lines, workdir, tag):
 
 
 def run_model(lines, workdir):
-    def cmd(cases, outp):
-        with open(cases) as fi, open(outp, "w") as fo:
-            p = subprocess.run([DRIVER], stdin=fi, stdout=fo, stderr=subprocess.PIPE, env=ENV)
-        return p.returncode
-    rc, outs = _run_file(cmd, lines, workdir, "model")
-    if rc != 0 or len(outs) != len(lines):
+    """Runs the Lean driver on the cases. The driver flushes one answer per line; a case on which it does not answer within the
+    budget (possible only when the model regenerated from a changed source accepts sizes no datagram can carry) is reported as
+    `model-timeout` and a fresh driver continues with the next case; a crash (stack overflow) is isolated by bisection."""
+    def cmd_with(budget):
+        def cmd(cases, outp):
+            with open(cases) as fi, open(outp, "w") as fo:
+                try:
+                    p = subprocess.run([DRIVER], stdin=fi, stdout=fo, stderr=subprocess.PIPE, env=ENV, timeout=budget)
+                except subprocess.TimeoutExpired:
+                    return "timeout"
+            return p.returncode
+        return cmd
+    result = []
+    rest = list(lines)
+    while rest:
+        budget = 30 + 1.0 * len(rest) + (270 if len(rest) > 50 else 0)
+        rc, outs = _run_file(cmd_with(budget), rest, workdir, "model")
+        if rc == 0 and len(outs) == len(rest):
+            return result + outs
+        if rc == "timeout":
+            raw = ""
+            try:
+                with open(os.path.join(workdir, "model_out.txt"), errors="replace") as f:
+                    raw = f.read()
+            except OSError:
+                pass
+            done = raw.split("\n")[:-1]          # complete answers only
+            done = done[:max(0, len(rest) - 1)]
+            result += done + ["model-timeout"]
+            rest = rest[len(done) + 1:]
+            continue
         # isolate a crashing line (stack overflow etc.)
-        if len(lines) == 1:
-            return ["model-crash"]
-        mid = len(lines) // 2
-        return run_model(lines[:mid], workdir) + run_model(lines[mid:], workdir)
-    return outs
+        if len(rest) == 1:
+            return result + ["model-crash"]
+        mid = len(rest) // 2
+        return result + run_model(rest[:mid], workdir) + run_model(rest[mid:], workdir)
+    return result
 
 
 def run_impl(lines, workdir, extra_env=None):
